@@ -36,6 +36,9 @@ pub struct Hb {
     /// payload -> (initialising thread, its clock component at initialisation, by clone of foreign key)
     init_v: HashMap<u64, (usize, u32)>,
     init_k: HashMap<u64, (usize, u32, bool)>,
+    /// the compare-exchange announced last: (thread, location, the thread's clock and the location's
+    /// release clock before it was applied as a success, failure ordering)
+    last_cas: Option<(usize, usize, VC, Option<VC>, Ordering)>,
     pub violations: Vec<String>,
     pub checked: u64,
     pub cross_thread: u64,
@@ -56,7 +59,7 @@ impl Hb {
         for (i, v) in vc.iter_mut().enumerate() {
             v[i] = 1;
         }
-        Hb { vc, rc: HashMap::new(), mc: HashMap::new(), init_v: HashMap::new(), init_k: HashMap::new(), violations: Vec::new(), checked: 0, cross_thread: 0, cross_copy: 0 }
+        Hb { vc, rc: HashMap::new(), mc: HashMap::new(), init_v: HashMap::new(), init_k: HashMap::new(), last_cas: None, violations: Vec::new(), checked: 0, cross_thread: 0, cross_copy: 0 }
     }
 
     fn access(&mut self, t: usize, what: &str, id: u64, info: Option<(usize, u32, bool)>, step: u64) {
@@ -101,9 +104,13 @@ impl Hb {
                         }
                     }
                     _ => {
-                        // RMW / CAS (outcome unknown at hook time: a CAS is treated as successful on
-                        // the release side and with the stronger of its two orderings on the acquire
-                        // side - both only add edges, so no false alarm can result)
+                        // RMW / CAS.  The outcome of a CAS is not known at hook time: it is applied
+                        // as a success here (release side, and the stronger of its two orderings on
+                        // the acquire side); if the `EV_CAS_FAILED` event follows, this is undone and
+                        // only the failure ordering is applied (see `Ev::Site` below)
+                        if kind == flurry::verif::CAS {
+                            self.last_cas = Some((t, addr, self.vc[t], self.rc.get(&addr).copied(), ord_fail));
+                        }
                         if acq(ord) || acq(ord_fail) {
                             if let Some(r) = self.rc.get(&addr) {
                                 let r = *r;
@@ -131,7 +138,27 @@ impl Hb {
                 self.mc.insert(addr, self.vc[t]);
                 self.vc[t][t] += 1;
             }
-            Ev::Site { .. } => {}
+            Ev::Site { thread, kind, a, .. } => {
+                if kind == flurry::verif::EV_CAS_FAILED {
+                    if let Some((t, addr, vc, rc, ord_fail)) = self.last_cas.take() {
+                        if t == tix(thread) && addr == a {
+                            // nothing was stored: no release, and the load half has the failure ordering
+                            self.vc[t] = vc;
+                            match rc {
+                                Some(r) => {
+                                    self.rc.insert(addr, r);
+                                    if acq(ord_fail) {
+                                        join(&mut self.vc[t], &r);
+                                    }
+                                }
+                                None => {
+                                    self.rc.remove(&addr);
+                                }
+                            }
+                        }
+                    }
+                }
+            }
             Ev::User { thread, step, tag, a, b } => {
                 let t = tix(thread);
                 match tag {
